@@ -22,6 +22,11 @@ where
 {
     underlying: MultiPeek<I>,
     start_of_line: bool,
+    /// Whether the next token may start a simple statement: at the start of a logical line, after
+    /// a `;` and after the `:` that ends the header of a compound statement (`if x: type X = int`).
+    start_of_statement: bool,
+    /// Number of brackets, braces and parentheses that are open after the last returned token.
+    nesting: u32,
 }
 
 impl<I> SoftKeywordTransformer<I>
@@ -32,6 +37,8 @@ where
         Self {
             underlying: lexer.multipeek(), // spell-checker:ignore multipeek
             start_of_line: matches!(mode, Mode::Interactive | Mode::Module),
+            start_of_statement: matches!(mode, Mode::Interactive | Mode::Module),
+            nesting: 0,
         }
     }
 }
@@ -89,11 +96,13 @@ where
                     }
                 }
                 // For `type` all of the following conditions must be met:
-                // 1. The token is at the start of a logical line.
+                // 1. The token is at the start of a simple statement: at the start of a logical
+                //    line, or after a `;` or a `:` outside of brackets (a type alias is a simple
+                //    statement, so `pass; type X = int` and `if x: type X = int` are valid).
                 // 2. The type token is immediately followed by a name token.
                 // 3. The name token is eventually followed by an equality token.
                 Tok::Type => {
-                    if !self.start_of_line {
+                    if !self.start_of_statement {
                         next = Some(Ok((soft_to_name(tok), *range)));
                     } else {
                         let mut is_type_alias = false;
@@ -137,6 +146,35 @@ where
             }
         }
 
+        if let Some(Ok((tok, _))) = next.as_ref() {
+            match tok {
+                Tok::Lpar | Tok::Lsqb | Tok::Lbrace => self.nesting += 1,
+                Tok::Rpar | Tok::Rsqb | Tok::Rbrace => {
+                    self.nesting = self.nesting.saturating_sub(1)
+                }
+                _ => {}
+            }
+        }
+        self.start_of_statement = next.as_ref().is_some_and(|lex_result| {
+            lex_result.as_ref().is_ok_and(|(tok, _)| {
+                #[cfg(feature = "full-lexer")]
+                if matches!(tok, Tok::NonLogicalNewline | Tok::Comment { .. }) {
+                    return self.start_of_statement;
+                }
+
+                match tok {
+                    Tok::StartModule
+                    | Tok::StartInteractive
+                    | Tok::Newline
+                    | Tok::Indent
+                    | Tok::Dedent => true,
+                    // The `:` of a lambda, a slice, a dictionary entry or an annotation inside
+                    // of brackets never precedes a statement.
+                    Tok::Semi | Tok::Colon => self.nesting == 0,
+                    _ => false,
+                }
+            })
+        });
         self.start_of_line = next.as_ref().is_some_and(|lex_result| {
             lex_result.as_ref().is_ok_and(|(tok, _)| {
                 #[cfg(feature = "full-lexer")]
